@@ -43,8 +43,32 @@ instance (w : World) : Decidable (Mesh w) := by unfold Mesh; exact inferInstance
 theorem hit_zero (a y : Addr) : hit a y 0 = 0 := by simp [hit]
 theorem viaPeer_zero (nc : Net) (cb : Bbmd) (nx : Net) (x : Node) : viaPeer nc cb nx x 0 = 0 := by
   simp [viaPeer, hit]
+theorem viaHop_zero (nc : Net) (cb : Bbmd) (nx : Net) (x : Node) : viaHop nc cb nx x 0 = 0 := by
+  simp [viaHop]
 theorem peerVal_zero (w : World) (nx : Net) (x : Node) (e : BdtEntry) : peerVal w nx x 0 e = 0 := by
-  unfold peerVal; split <;> simp [viaPeer_zero]
+  unfold peerVal; split
+  · split <;> simp [viaPeer_zero, viaHop_zero]
+  · rfl
+theorem peerExtra_zero (w : World) (nx : Net) (x : Node) (sa : Addr) (e : BdtEntry) :
+    peerExtra w nx x 0 sa e = 0 := by
+  unfold peerExtra; split
+  · split <;> simp [extraLocal, extraHop]
+  · rfl
+theorem fwdExtra_zero (w : World) (nx : Net) (x : Node) (b : Bbmd) : fwdExtra w nx x 0 b = 0 := by
+  unfold fwdExtra
+  exact sum_none _ _ (fun e _ => peerExtra_zero w nx x b.addr e)
+theorem firstExtras_zero (w : World) (nx : Net) (x : Node) (n : Net) (s : Addr) :
+    firstExtras w nx x 0 n s = 0 := by
+  unfold firstExtras
+  apply sum_none
+  intro nd _
+  split
+  · split <;> simp [fwdExtra_zero]
+  · rfl
+theorem distExtra_zero (w : World) (nx : Net) (x : Node) (nc : Net) (cb : Bbmd) :
+    distExtra w nx x 0 nc cb = 0 := by
+  unfold distExtra
+  exact sum_none _ _ (fun e _ => by split <;> simp [extraLocal, peerExtra_zero])
 theorem fwdFrom_zero (w : World) (nx : Net) (x : Node) (b : Bbmd) : fwdFrom w nx x 0 b = 0 := by
   unfold fwdFrom
   rw [sum_none _ _ (fun e _ => peerVal_zero w nx x e)]
@@ -155,7 +179,7 @@ theorem local_home : viaLocal nc cb nx x 1 = if ca = h ∧ x.isSimple = true the
       · intro hid
         have h1 : nc = nh := hw.net_eq hnc hnh (hid.symm.trans hnhx)
         subst h1
-        have := hp.2.1 nc hnc _ hC H hH rfl hHb
+        have := hp.2 nc hnc _ hC H hH rfl hHb
         rw [← this] at hHa; exact hHa
       · intro he
         subst he
@@ -248,11 +272,60 @@ theorem home_listed {n : Net} (hn : n ∈ w.nets) {ba : Addr} {b : Bbmd}
   have := hm n hn _ hB nh hnh H hH hHb
   simpa [Lists, hHa] using this
 
+/-- for a node that is not a foreign device: it lives on the subnet of BBMD `B` iff `B` is its home -/
+theorem same_net_iff_home (hnf : x.isForeign = false) {n : Net} (hn : n ∈ w.nets) {ba : Addr} {b : Bbmd}
+    (hB : (⟨ba, .bbmd b⟩ : Node) ∈ n.nodes) : nx.id = n.id ↔ ba = h := by
+  obtain ⟨nh, hnh, H, hH, hHa, hat⟩ := hh
+  have hHb : H.isBbmd = true := by
+    unfold HomeAt at hat
+    split at hat
+    · next hb hst => simp [Node.isBbmd, Kind.isBbmd, hst]
+    · exact hat.elim
+  -- x and its home share the subnet
+  have hnxh : nx = nh := by
+    unfold HomeAt at hat
+    split at hat
+    · rcases hat with h1 | h1 | h1
+      · exact hw.node_net hnx hnh hx hH h1
+      · exact hw.net_eq hnx hnh h1.2
+      · have := accepts_foreign h1.1; simp [this] at hnf
+    · exact hat.elim
+  subst hnxh
+  constructor
+  · intro hid
+    have : nx = n := hw.net_eq hnx hn hid
+    subst this
+    have := hp.2 nx hnx _ hB H hH rfl hHb
+    rw [← this] at hHa; exact hHa
+  · intro he
+    subst he
+    exact congrArg Net.id (hw.node_net hnx hn hH hB hHa)
+
+/-- one-hop arrival in a full mesh: reaches `x` iff the subnet's BBMD is `x`'s home -/
+theorem viaHop_home {nc : Net} (hnc : nc ∈ w.nets) {ca : Addr} {cb : Bbmd}
+    (hC : (⟨ca, .bbmd cb⟩ : Node) ∈ nc.nodes) : viaHop nc cb nx x 1 = if ca = h then 1 else 0 := by
+  obtain ⟨hca, _⟩ := bbmdOk_of hw hp hnx hx hnc hC
+  have h3 := fdt_home hw hp hm hnx hx hh hnc hC
+  unfold viaHop
+  rw [h3]
+  rcases kind_trichotomy x with k | k | k
+  · have hiff := same_net_iff_home hw hp hm hnx hx hh k.2.2 hnc hC
+    by_cases he : ca = h
+    · simp [hiff.2 he, he, k.2.2]
+    · have : ¬ nx.id = nc.id := fun hc => he (hiff.1 hc)
+      simp [this, he]
+  · have hiff := same_net_iff_home hw hp hm hnx hx hh k.2.2 hnc hC
+    by_cases he : ca = h
+    · simp [hiff.2 he, he, k.2.2]
+    · have : ¬ nx.id = nc.id := fun hc => he (hiff.1 hc)
+      simp [this, he]
+  · by_cases he : ca = h <;> simp [k.2.2, he]
+
 theorem peerVal_home {n : Net} (hn : n ∈ w.nets) {ba : Addr} {b : Bbmd}
     (hB : (⟨ba, .bbmd b⟩ : Node) ∈ n.nodes) (e : BdtEntry) (he : e ∈ b.bdt) :
     peerVal w nx x 1 e = if e.addr = h then 1 else 0 := by
   obtain ⟨_, _, _, _, hbd, _⟩ := bbmdOk_of hw hp hnx hx hn hB
-  obtain ⟨_, _, nc, hnc, cn, hcn, hce, hcb⟩ := hbd e he
+  obtain ⟨nc, hnc, cn, hcn, hce, hcb, _⟩ := hbd e he
   obtain ⟨ca, cst⟩ := cn
   cases cst with
   | bbmd cb =>
@@ -260,7 +333,10 @@ theorem peerVal_home {n : Net} (hn : n ∈ w.nets) {ba : Addr} {b : Bbmd}
     subst hce
     unfold peerVal
     rw [bbmdAt_eq hw hnc hcn rfl]
-    exact viaPeer_home hw hp hm hnx hx hh hnc hcn
+    simp only
+    split
+    · exact viaPeer_home hw hp hm hnx hx hh hnc hcn
+    · exact viaHop_home hw hp hm hnx hx hh hnc hcn
   | simple => simp [Node.isBbmd, Kind.isBbmd] at hcb
   | foreign _ => simp [Node.isBbmd, Kind.isBbmd] at hcb
 
@@ -303,41 +379,230 @@ theorem firstBbmds_eq (c : Nat) {n : Net} (hn : n ∈ w.nets) {ba : Addr} {b : B
   split
   · cases hzs : z.st with
     | bbmd zb =>
-      have : z = ⟨ba, .bbmd b⟩ := hp.2.1 n hn z hz _ hB (by simp [Node.isBbmd, Kind.isBbmd, hzs]) rfl
+      have : z = ⟨ba, .bbmd b⟩ := hp.2 n hn z hz _ hB (by simp [Node.isBbmd, Kind.isBbmd, hzs]) rfl
       exact absurd this hzB
     | simple => rfl
     | foreign _ => rfl
   · rfl
 
-/-- for a node that is not a foreign device: it lives on the subnet of BBMD `B` iff `B` is its home -/
-theorem same_net_iff_home (hnf : x.isForeign = false) {n : Net} (hn : n ∈ w.nets) {ba : Addr} {b : Bbmd}
-    (hB : (⟨ba, .bbmd b⟩ : Node) ∈ n.nodes) : nx.id = n.id ↔ ba = h := by
+theorem home_foreign_accepts (hf : x.isForeign = true) : x.accepts h = true := by
   obtain ⟨nh, hnh, H, hH, hHa, hat⟩ := hh
-  have hHb : H.isBbmd = true := by
-    unfold HomeAt at hat
-    split at hat
-    · next hb hst => simp [Node.isBbmd, Kind.isBbmd, hst]
-    · exact hat.elim
-  -- x and its home share the subnet
-  have hnxh : nx = nh := by
-    unfold HomeAt at hat
-    split at hat
-    · rcases hat with h1 | h1 | h1
-      · exact hw.node_net hnx hnh hx hH h1
-      · exact hw.net_eq hnx hnh h1.2
-      · have := accepts_foreign h1.1; simp [this] at hnf
-    · exact hat.elim
-  subst hnxh
-  constructor
-  · intro hid
-    have : nx = n := hw.net_eq hnx hn hid
-    subst this
-    have := hp.2.1 nx hnx _ hB H hH rfl hHb
-    rw [← this] at hHa; exact hHa
-  · intro he
-    subst he
-    exact congrArg Net.id (hw.node_net hnx hn hH hB hHa)
+  unfold HomeAt at hat
+  split at hat
+  · next hb hst =>
+    rcases hat with h1 | h1 | h1
+    · have : x = H := hw.node_eq hnx hnh hx hH h1
+      subst this; simp [Node.isForeign, hst] at hf
+    · rcases kind_trichotomy x with k | k | k <;> simp_all
+    · exact hHa ▸ h1.1
+  · exact hat.elim
 
 end collapse
+
+/-! ### the extra copies ("echoes") -/
+
+def AcceptsClear (n : Net) (y : Node) (nb : Net) (B : Node) : Prop :=
+  match B.st with
+  | .bbmd b => y.accepts b.addr = true → (nb.id ≠ n.id ∧ ∀ e ∈ b.bdt, dirBcast e ≠ n.bcast)
+  | _ => True
+
+instance (n : Net) (y : Node) (nb : Net) (B : Node) : Decidable (AcceptsClear n y nb B) := by
+  unfold AcceptsClear; split <;> exact inferInstance
+
+/-- the exact side condition of "exactly once": the BBMD a foreign device is registered with
+    never broadcasts into the device's subnet — it is neither that subnet's own BBMD (local
+    re-broadcast) nor has it a one-hop entry whose directed broadcast goes there -/
+def NoEcho (w : World) : Prop :=
+  ∀ n ∈ w.nets, ∀ y ∈ n.nodes, ∀ nb ∈ w.nets, ∀ B ∈ nb.nodes, AcceptsClear n y nb B
+
+instance (w : World) : Decidable (NoEcho w) := by unfold NoEcho; exact inferInstance
+
+def TwoHopOnly (B : Node) : Prop :=
+  match B.st with
+  | .bbmd b => ∀ e ∈ b.bdt, dirBcast e = e.addr
+  | _ => True
+
+instance (B : Node) : Decidable (TwoHopOnly B) := by unfold TwoHopOnly; split <;> exact inferInstance
+
+/-- every BDT entry of every BBMD is two-hop -/
+def AllTwoHop (w : World) : Prop := ∀ n ∈ w.nets, ∀ B ∈ n.nodes, TwoHopOnly B
+
+instance (w : World) : Decidable (AllTwoHop w) := by unfold AllTwoHop; exact inferInstance
+
+section noecho
+variable {w : World} (hw : WF w) (hp : Pop w) (hq : NoEcho w) (c : Nat)
+variable {nx : Net} (hnx : nx ∈ w.nets) {x : Node} (hx : x ∈ nx.nodes)
+include hw hp hq hnx hx
+
+theorem extraLocal_noecho {nc : Net} (hnc : nc ∈ w.nets) {ca : Addr} {cb : Bbmd}
+    (hC : (⟨ca, .bbmd cb⟩ : Node) ∈ nc.nodes) : extraLocal nc cb nx x c = 0 := by
+  unfold extraLocal
+  have := hq nx hnx x hx nc hnc _ hC
+  simp only [AcceptsClear] at this
+  by_cases h : nx.id = nc.id ∧ x.accepts cb.addr = true
+  · exact absurd h.1.symm (this h.2).1
+  · simp [h]
+
+theorem peerExtra_noecho {n : Net} (hn : n ∈ w.nets) {ba : Addr} {b : Bbmd}
+    (hB : (⟨ba, .bbmd b⟩ : Node) ∈ n.nodes) (e : BdtEntry) (he : e ∈ b.bdt) :
+    peerExtra w nx x c ba e = 0 := by
+  obtain ⟨hca, _, _, _, hbd, _⟩ := bbmdOk_of hw hp hnx hx hn hB
+  obtain ⟨nc, hnc, cn, hcn, hce, hcb, hkind⟩ := hbd e he
+  obtain ⟨ca, cst⟩ := cn
+  cases cst with
+  | bbmd cb =>
+    simp only at hce
+    subst hce
+    unfold peerExtra
+    rw [bbmdAt_eq hw hnc hcn rfl]
+    simp only
+    split
+    · split
+      · exact extraLocal_noecho hw hp hq c hnx hx hnc hcn
+      · rfl
+    · next hd =>
+      unfold extraHop
+      by_cases h : nx.id = nc.id ∧ x.accepts ba = true
+      · rcases hkind with h2 | ⟨h1, _⟩
+        · exact absurd h2 hd
+        · have hnn : nx = nc := hw.net_eq hnx hnc h.1
+          subst hnn
+          have := hq nx hnx x hx n hn _ hB
+          simp only [AcceptsClear] at this
+          exact absurd h1 ((this (hca ▸ h.2)).2 e he)
+      · simp [h]
+  | simple => simp [Node.isBbmd, Kind.isBbmd] at hcb
+  | foreign _ => simp [Node.isBbmd, Kind.isBbmd] at hcb
+
+theorem fwdExtra_noecho {n : Net} (hn : n ∈ w.nets) {ba : Addr} {b : Bbmd}
+    (hB : (⟨ba, .bbmd b⟩ : Node) ∈ n.nodes) : fwdExtra w nx x c b = 0 := by
+  obtain ⟨hca, _⟩ := bbmdOk_of hw hp hnx hx hn hB
+  unfold fwdExtra
+  apply sum_none
+  intro e he
+  rw [hca]
+  exact peerExtra_noecho hw hp hq c hnx hx hn hB e (List.mem_filter.1 he).1
+
+theorem firstExtras_noecho {n : Net} (hn : n ∈ w.nets) (s : Addr) : firstExtras w nx x c n s = 0 := by
+  unfold firstExtras
+  apply sum_none
+  intro nd hnd
+  split
+  · obtain ⟨ya, yst⟩ := nd
+    cases yst with
+    | bbmd b => exact fwdExtra_noecho hw hp hq c hnx hx hn hnd
+    | simple => rfl
+    | foreign _ => rfl
+  · rfl
+
+theorem distExtra_noecho {nc : Net} (hnc : nc ∈ w.nets) {ca : Addr} {cb : Bbmd}
+    (hC : (⟨ca, .bbmd cb⟩ : Node) ∈ nc.nodes) : distExtra w nx x c nc cb = 0 := by
+  obtain ⟨hca, _⟩ := bbmdOk_of hw hp hnx hx hnc hC
+  unfold distExtra
+  apply sum_none
+  intro e he
+  split
+  · exact extraLocal_noecho hw hp hq c hnx hx hnc hC
+  · rw [hca]; exact peerExtra_noecho hw hp hq c hnx hx hnc hC e he
+
+end noecho
+
+/-! ### the misconfiguration: a foreign device on the subnet of its own BBMD (two-hop mesh) -/
+
+section ownnet
+variable {w : World} (hw : WF w) (hp : Pop w) (hm : Mesh w) (h2 : AllTwoHop w)
+variable {nx : Net} (hnx : nx ∈ w.nets) {x : Node} (hx : x ∈ nx.nodes) {h : Addr} (hh : Home w nx x h)
+variable (hxf : x.isForeign = true) (hon : ∀ nc ∈ w.nets, ∀ C ∈ nc.nodes, C.addr = h → nx.id = nc.id)
+include hw hp hm h2 hnx hx hh hxf hon
+
+theorem extraLocal_own {nc : Net} (hnc : nc ∈ w.nets) {ca : Addr} {cb : Bbmd}
+    (hC : (⟨ca, .bbmd cb⟩ : Node) ∈ nc.nodes) :
+    extraLocal nc cb nx x 1 = if ca = h then 1 else 0 := by
+  obtain ⟨hca, _⟩ := bbmdOk_of hw hp hnx hx hnc hC
+  have hacc := home_foreign_accepts hw hp hm hnx hx hh hxf
+  unfold extraLocal
+  rw [hca]
+  by_cases he : ca = h
+  · subst he
+    have := hon nc hnc _ hC rfl
+    simp [this, hacc]
+  · have : ¬ x.accepts ca = true := fun hc => he (accepts_inj hc hacc)
+    simp [this, he]
+
+theorem peerExtra_own {n : Net} (hn : n ∈ w.nets) {ba : Addr} {b : Bbmd}
+    (hB : (⟨ba, .bbmd b⟩ : Node) ∈ n.nodes) (sa : Addr) (e : BdtEntry) (he : e ∈ b.bdt) :
+    peerExtra w nx x 1 sa e = if e.addr = h then 1 else 0 := by
+  obtain ⟨_, _, _, _, hbd, _⟩ := bbmdOk_of hw hp hnx hx hn hB
+  obtain ⟨nc, hnc, cn, hcn, hce, hcb, _⟩ := hbd e he
+  have htwo : dirBcast e = e.addr := by
+    have := h2 n hn _ hB
+    simp only [TwoHopOnly] at this
+    exact this e he
+  obtain ⟨ca, cst⟩ := cn
+  cases cst with
+  | bbmd cb =>
+    simp only at hce
+    subst hce
+    have hself : cb.selfListed = true := by
+      obtain ⟨hca, _⟩ := bbmdOk_of hw hp hnx hx hnc hcn
+      have := hm nc hnc _ hcn nc hnc _ hcn rfl
+      simp only [Lists] at this
+      unfold Bbmd.selfListed
+      rw [List.any_eq_true]
+      obtain ⟨e', he', hea⟩ := List.mem_map.1 this
+      exact ⟨e', he', by simp [hea, hca]⟩
+    unfold peerExtra
+    rw [bbmdAt_eq hw hnc hcn rfl]
+    simp only [htwo, if_true, hself]
+    exact extraLocal_own hw hp hm h2 hnx hx hh hxf hon hnc hcn
+  | simple => simp [Node.isBbmd, Kind.isBbmd] at hcb
+  | foreign _ => simp [Node.isBbmd, Kind.isBbmd] at hcb
+
+/-- a first BBMD other than the device's own causes one extra copy (the own BBMD re-broadcasts
+    what it gets by unicast) -/
+theorem fwdExtra_own {n : Net} (hn : n ∈ w.nets) {ba : Addr} {b : Bbmd}
+    (hB : (⟨ba, .bbmd b⟩ : Node) ∈ n.nodes) :
+    fwdExtra w nx x 1 b = if h ≠ ba then 1 else 0 := by
+  obtain ⟨hca, _, hbn, _, _, _⟩ := bbmdOk_of hw hp hnx hx hn hB
+  unfold fwdExtra
+  have h1 : ((b.bdt.filter fun e => e.addr ≠ b.addr).map (peerExtra w nx x 1 b.addr)) =
+      (b.bdt.filter fun e => e.addr ≠ b.addr).map fun e => if e.addr = h then 1 else 0 := by
+    apply List.map_congr_left
+    intro e he
+    exact peerExtra_own hw hp hm h2 hnx hx hh hxf hon hn hB b.addr e (List.mem_filter.1 he).1
+  rw [h1, sum_key_indicator (fun e : BdtEntry => e.addr) h 1 _ (filter_map_nodup _ _ _ hbn)]
+  have hl := home_listed hw hp hm hnx hx hh hn hB
+  rw [hca]
+  by_cases hne : h = ba
+  · have : h ∉ (b.bdt.filter fun e => e.addr ≠ ba).map (·.addr) := by
+      intro hmem
+      obtain ⟨e, he, hea⟩ := List.mem_map.1 hmem
+      have := (List.mem_filter.1 he).2
+      simp [hea, hne] at this
+    rw [if_neg this]; simp [hne]
+  · have : h ∈ (b.bdt.filter fun e => e.addr ≠ ba).map (·.addr) := by
+      obtain ⟨e, he, hea⟩ := List.mem_map.1 hl
+      exact List.mem_map.2 ⟨e, List.mem_filter.2 ⟨he, by simp [hea, hne]⟩, hea⟩
+    rw [if_pos this]; simp [hne]
+
+/-- a foreign device's broadcast always causes exactly one extra copy at `x` -/
+theorem distExtra_own {nc : Net} (hnc : nc ∈ w.nets) {ca : Addr} {cb : Bbmd}
+    (hC : (⟨ca, .bbmd cb⟩ : Node) ∈ nc.nodes) : distExtra w nx x 1 nc cb = 1 := by
+  obtain ⟨hca, _, hbn, _, _, _⟩ := bbmdOk_of hw hp hnx hx hnc hC
+  unfold distExtra
+  have h1 : (cb.bdt.map fun e => if e.addr = cb.addr then extraLocal nc cb nx x 1
+        else peerExtra w nx x 1 cb.addr e) =
+      cb.bdt.map fun e => if e.addr = h then 1 else 0 := by
+    apply List.map_congr_left
+    intro e he
+    by_cases hs : e.addr = cb.addr
+    · simp only [hs, if_true]
+      rw [extraLocal_own hw hp hm h2 hnx hx hh hxf hon hnc hC, hca]
+    · simp only [hs, if_false]
+      exact peerExtra_own hw hp hm h2 hnx hx hh hxf hon hnc hC cb.addr e he
+  rw [h1, sum_key_indicator (fun e : BdtEntry => e.addr) h 1 _ hbn,
+    if_pos (home_listed hw hp hm hnx hx hh hnc hC)]
+
+end ownnet
 
 end BacVerif.Bip
